@@ -100,7 +100,12 @@ class TableEntry (object):
     """
     Exact matches effectively have an "infinite" priority
     """
-    return self.priority if self.match.is_wildcarded else (1<<16) + 1
+    # Fields which OpenFlow ignores for this dl_type/nw_proto are wildcarded
+    # in a decoded match (see ofp_match._unwire_wildcards); they do not make
+    # a match any less exact.
+    ignored = self.match._unwire_wildcards(0)
+    if self.match.wildcards & ~ignored & OFPFW_ALL: return self.priority
+    return (1<<16) + 1
 
   def is_matched_by (self, match, priority=None, strict=False, out_port=None):
     """
